@@ -322,8 +322,13 @@ func copyToLayer(base Fs, layer Fs, name string) error {
 }
 
 func copyFileToLayer(base Fs, layer Fs, name string, flag int, perm os.FileMode) error {
-	// the copy reads from the start of the file: O_APPEND would position the handle at its end
-	bfh, err := base.OpenFile(name, flag&^os.O_APPEND, perm)
+	// the copy reads from the start of the file: O_APPEND would position the handle at its end,
+	// and a write-only handle cannot be read at all on the operating system
+	flag &^= os.O_APPEND
+	if flag&os.O_WRONLY != 0 {
+		flag = flag&^os.O_WRONLY | os.O_RDWR
+	}
+	bfh, err := base.OpenFile(name, flag, perm)
 	if err != nil {
 		return err
 	}
